@@ -19,7 +19,7 @@ from pathlib import Path
 
 import vf
 
-BUILD = dict(extracted=['server'], translators=set())
+BUILD = dict(extracted=['server', 'errtree', 'client'], translators=set())
 
 K_CONNECT, K_DISCONNECT, K_SUBMIT, K_REQUEST, K_STATUS, K_CANCEL, K_RESULT, K_ERROR, K_LOG = range(9)
 KNAMES = ['connect', 'disconnect', 'submit', 'request', 'status', 'cancel', 'result', 'error', 'log']
@@ -1626,6 +1626,24 @@ def spec_cross_check(ctx, hists):
     return True
 
 
+INHERITED = ['handle_message', 'handle_new_comp_task', 'handle_request', 'handle_status', 'handle_cancel_comp_task',
+             'handle_result', 'handle_error', 'handle_log', 'handle_system_error', 'handle_shutdown', '_get_new_mailbox_id',
+             'run', 'send_outgoing', 'schedule_tasks', 'send_result_down', 'broadcast']
+
+
+def attached_inherits(ctx):
+    """AttachedServer differs from DetachedServer only in __init__ and handle_disconnect (= shutdown: the single
+    client owns the runtime): every handler of the model is the very same function object (fail-closed)."""
+    from bqskit.runtime.attached import AttachedServer
+    from bqskit.runtime.detached import DetachedServer
+    own = sorted(k for k, v in vars(AttachedServer).items() if callable(v))
+    bad = [n for n in INHERITED if getattr(AttachedServer, n, None) is not getattr(DetachedServer, n, 0)]
+    ctx.cov['attached_overrides'] = own
+    if AttachedServer.__mro__[1] is not DetachedServer or bad or own != ['__init__', 'handle_disconnect']:
+        ctx.broken_obligation('AttachedServer no longer inherits the handlers modelled by rt/ServerM.v',
+                              f'overridden or missing: {bad}; own methods: {own}; bases: {AttachedServer.__mro__[1:3]}')
+
+
 def run(ctx: vf.Ctx):
     ctx.uses_translators = set()
     t_b = __import__('time').time()
@@ -1679,6 +1697,19 @@ def run(ctx: vf.Ctx):
     run_batch(ctx, ex, mode, 'exhaustive')
     ctx.cov['d4_avoiding_histories_clean'] = clean_safe
 
+    # extension: ERROR / LOG through a tree of real Manager objects vs rt/ErrTree.v; the client side vs rt/ClientM.v;
+    # AttachedServer inherits every handler of the model
+    import sys as _sys
+    import c13_tree
+    import c13_client
+    t_x = __import__('time').time()
+    if ctx.extract_ok.get('errtree'):
+        c13_tree.run_tree(ctx, mode, _sys.modules[__name__])
+    if ctx.extract_ok.get('client'):
+        ctx.cov['client_mode'] = c13_client.run_client(ctx)
+    attached_inherits(ctx)
+    ctx.cov['t_extension_s'] = round(__import__('time').time() - t_x, 1)
+
     # the real sender thread
     import logging as _lg
     _lg.getLogger('bqskit').setLevel(_lg.CRITICAL)
@@ -1705,6 +1736,17 @@ def run(ctx: vf.Ctx):
 
 
 def replay(ctx: vf.Ctx, data):
+    _case = data.get('case') if isinstance(data, dict) else None
+    if isinstance(_case, dict) and _case.get('kind') == 'tree':
+        import sys as _sys
+        import c13_tree
+        c13_tree.check_case(ctx, {k: v for k, v in _case.items() if k != 'kind'}, _sys.modules[__name__],
+                            MODES[detect_mode(ctx)], 'replay')
+        return
+    if isinstance(_case, dict):
+        import c13_client
+        if c13_client.replay_client(ctx, _case):
+            return
     import logging
     import warnings
     warnings.simplefilter('ignore', RuntimeWarning)
